@@ -1,5 +1,5 @@
 """C24 — noise-model channels act on the intended atomic levels."""
-from ..rules import adapter, dispatch, noise
+from ..rules import adapter, dispatch, drivers, noise
 
 META = {
     "title": "Noise-model channels act on the intended atomic levels",
@@ -13,7 +13,8 @@ META = {
                    "every row and column touching levels 0/1 unless a guard pins dim to 2; XY operators are "
                    "untouched; shapes are validated against (dim, dim). DISPATCH: unknown types raise, "
                    "hyperfine dephasing is refused. "
-                   "BASIS-rate: effective-noise rates and operators are paired one-to-one (zip of eff_noise_rates with one tensor per eff_noise_opers entry; only a filter on the zipped pairs that drops zero rates is accepted).",
+                   "BASIS-rate: effective-noise rates and operators are paired one-to-one (zip of eff_noise_rates with one tensor per eff_noise_opers entry; only a filter on the zipped pairs that drops zero rates is accepted). "
+                   "NOISE-forward: PulserData hands the jump-operator builder the dim and interaction_type of the sequence's HamiltonianData and the builder forwards them (no fallback to the callee defaults ising / 2).",
     "not_decided": "that Pulser's own operators are the intended physics; numerical values of the rates",
     "trusted_base": ["CPython ast", "sa.interp", "the divisor/entry tables in sa/rules/noise.py (from Pulser's "
                      "documentation of the channels)"],
@@ -30,3 +31,5 @@ def check(ctx):
     ctx.floor("BASIS-table", 3)
     adapter.noise_source(ctx)
     dispatch.hamiltonian_type_table(ctx)
+    drivers.noise_forwarding(ctx)
+    ctx.floor("NOISE-forward", 2)
